@@ -77,13 +77,18 @@ def read_swan(filename, dirorder=True, as_site=False):
             )
 
     if swanfile.is_grid:
+        # Place each location from its own coordinates so the result does not depend
+        # on the order in which the grid locations are listed in the file
+        ilons = np.searchsorted(np.unique(lons), lons)
+        ilats = np.searchsorted(np.unique(lats), lats)
         lons = sorted(np.unique(lons))
         lats = sorted(np.unique(lats))
-        arr = np.array(spec_list).reshape(
-            len(times), len(lons), len(lats), len(freqs), len(dirs)
+        arr = np.full(
+            (len(times), len(lats), len(lons), len(freqs), len(dirs)), np.nan
         )
+        arr[:, ilats, ilons] = np.array(spec_list)
         dset = xr.DataArray(
-            data=np.swapaxes(arr, 1, 2),
+            data=arr,
             coords=OrderedDict(
                 (
                     (attrs.TIMENAME, times),
